@@ -7,7 +7,7 @@ use crate::erpki::*;
 use crate::erun::*;
 use crate::escen::*;
 
-fn scenario(words: &[u16]) -> Scenario {
+pub fn scenario(words: &[u16]) -> Scenario {
     let mut hp = HistProfile::default();
     hp.base.fault_16 = 0;
     hp.base.obj_faults = false;
